@@ -139,6 +139,34 @@ def run_bigweights(ctx, pt):
         judge_subset(ctx, 'C20/exactsum/big-weights', items, s_, ctx.attempt(K.exactsum, list(items), s_), False)
 
 
+SCALE = 22000          # 3 * SCALE > 2^16: every target of three or more units lies beyond 16 bits
+
+
+def pts_scaled(tier):
+    pts = []
+    for ms in itertools.combinations_with_replacement((1, 2, 3, 6), 3):
+        for order in ((0, 1) if tier == 'thorough' else (0,)):
+            for extra in ((), (7,)):
+                pts.append((tuple(ms) if order == 0 else tuple(reversed(ms)), extra, tier))
+    return pts
+
+
+def run_scaled(ctx, pt):
+    """the small instances again with every weight multiplied by SCALE (optionally with one small unscaled item):
+    what is reachable, and with how few items, does not depend on the unit"""
+    ws, extra, tier = pt
+    items = items_of([w * SCALE for w in ws] + list(extra))
+    tot = sum(ws)
+    ts = range(1, tot + 2) if tier == 'thorough' else sorted({tot, tot // 2, max(ws), tot - min(ws), tot + 1})
+    for t in ts:
+        for s_ in [t * SCALE] + [t * SCALE + e for e in extra]:
+            K = fresh_knapsack()
+            l = list(items)
+            judge_subset(ctx, 'C20/dynprog/large-weights', items, s_, ctx.attempt(K.dynprog, l, s_), True)
+            ctx.eq('C20/dynprog/input-mutated', l, items)
+            judge_subset(ctx, 'C20/exactsum/large-weights', items, s_, ctx.attempt(K.exactsum, list(items), s_), False)
+
+
 def pts_subset(tier):
     pts = []
     for n in range(0, (6 if tier == 'thorough' else 5) + 1):
@@ -228,8 +256,84 @@ class SubsetSys(HSystem):
         ctx.eq('C20/history/%s/answer-depends-on-earlier-calls' % ev[0], res, first)
 
 
+class CombSys(HSystem):
+    """two caller-held combink enumerations that are started, advanced, drained, closed or simply dropped in any order"""
+    SPECS = [(1, 1), (4, 2), (5, 3), (3, 3)]
+
+    def fresh(self):
+        import crysp.utils.perms as Pm
+        return {'P': importlib.reload(Pm), 'A': None, 'B': None}
+
+    def canon(self, o):
+        f = o['P'].combink
+        return (canon(getattr(f, '__dict__', {})), canon(f.__defaults__),
+                tuple(None if o[x] is None else (o[x]['spec'], o[x]['pos'], o[x]['dead']) for x in 'AB'))
+
+    def events(self, o):
+        ev = []
+        for x in 'AB':
+            ev += [('start', x, i) for i in range(len(self.SPECS))]
+            if o[x] is not None:
+                ev += [('next', x), ('drain', x), ('close', x), ('drop', x)]
+        return ev
+
+    def apply(self, o, ev):
+        x = ev[1]
+        if ev[0] == 'start':
+            n, p = self.SPECS[ev[2]]
+            o[x] = None                                     # the enumeration held before is dropped first
+            o[x] = {'spec': (n, p), 'pos': 0, 'dead': False, 'g': o['P'].combink([chr(97 + i) for i in range(n)], p, 0)}
+            return None
+        sl = o[x]
+        if ev[0] == 'drop':
+            o[x] = None
+            return None
+        if ev[0] == 'close':
+            sl['dead'] = True
+            return sl['g'].close()
+        if ev[0] == 'next':
+            sl['pos'] += 1
+            try:
+                return tuple(next(sl['g']))
+            except StopIteration:
+                sl['dead'] = True
+                return 'stop'
+        sl['was'], sl['pos'], sl['dead'] = sl['pos'], 1 << 20, True
+        return [tuple(c) for c in sl['g']]
+
+    def judge(self, ctx, hist, ev, res, o):
+        if ev[0] in ('start', 'drop', 'close'):
+            ctx.eq('C20/combink/iterators/%s' % ev[0], res, ('ok', None))
+            return
+        sl = o[ev[1]]
+        n, p = sl['spec']
+        full = list(itertools.combinations([chr(97 + i) for i in range(n)], p))
+        if ev[0] == 'next':
+            i = sl['pos'] - 1
+            closed = any(h[0] == 'close' and h[1] == ev[1] for h in self._since_start(hist, ev[1]))
+            exp = 'stop' if (closed or i >= len(full)) else full[i]
+            ctx.eq('C20/combink/iterators/next-with-another-enumeration-around', res, ('ok', exp))
+        else:
+            closed = any(h[0] == 'close' and h[1] == ev[1] for h in self._since_start(hist, ev[1]))
+            ctx.eq('C20/combink/iterators/rest-with-another-enumeration-around', res, ('ok', [] if closed else full[sl['was']:]))
+
+    @staticmethod
+    def _since_start(hist, x):
+        out = []
+        for h in hist:
+            if h[0] == 'start' and h[1] == x:
+                out = []
+            elif len(h) > 1 and h[1] == x:
+                out.append(h)
+        return out
+
+
 def systems(tier):
     return {'knapsack': SubsetSys()}
+
+
+def comb_systems(tier):
+    return {'combink': CombSys()}
 
 
 def subchecks():
@@ -242,6 +346,10 @@ def subchecks():
         Sub('subset-sum', pts_subset, run_subset, engine='D',
             bound='every item list of length 0..5 (thorough 0..6) with weights in {1,2,3,5} x every target 0..sum+1 (exactsum: 1..sum+1), each on a freshly loaded module'),
         Sub('big-weights', pts_bigweights, run_bigweights, engine='D', bound='exactsum on every 1-3 subset of 5 weights around 2^53, 2^60, 2^64 x every reachable target and two unreachable ones (dynprog is O(target) and not run there)'),
+        Sub('scaled-instances', pts_scaled, run_scaled, engine='D',
+            bound='every multiset of 3 weights over {1,2,3,6} multiplied by 22000 (targets beyond 2^16), with and without one unscaled item of weight 7, targets t*22000 and t*22000+7 for t in {sum, sum/2, max, sum-min, sum+1} (thorough: every t in 1..sum+1, both item orders): dynprog minimal, exactsum exact, vs brute force'),
+        hsub('combink-iterators', comb_systems, lambda tier: 4 if tier == 'quick' else 5,
+             bound='two caller-held combink enumerations over 4 (n,p) shapes: start / next / drain / close / drop on either, all histories to depth 4 (thorough 5) on one loaded module; every yielded combination and every remainder equals itertools.combinations; state = function attributes + (shape, position, liveness) of both'),
         hsub('call-histories', systems, lambda tier: 3 if tier == 'quick' else 4,
              bound='8 exactsum/dynprog calls, 4 calls on one caller-owned list object, overwriting that list in place, scribbling on the last returned result; all histories to depth 3 (thorough 4) on one loaded module, deduplicated by the functions\' default-argument state'),
     ]
